@@ -1,5 +1,6 @@
 package main
 
 import (
+	_ "verifmc/checks/alloc"
 	_ "verifmc/checks/c20"
 )
